@@ -8,7 +8,8 @@ from .symex import Env
 
 def tasks(engine, prop):
     if not prop:
-        return []
+        # the all-properties run (relock, screening): one canary task per property
+        return [t for p in ['C%02d' % i for i in range(1, 21)] for t in tasks(engine, p)]
 
     def setup(ex):
         return {'env': Env(), 'entry': ex.heap.copy()}
